@@ -906,7 +906,8 @@ func (c19Driver) Run(raw json.RawMessage) (res Case) {
 					if m == "MRemove" {
 						tag("burst-remove-race")
 					}
-					if id, ok := c19LockedID(m); ok {
+					if id, ok := c19LockedID(m); ok && id < ps[0].id {
+						// (a member of this burst that was refused by another member, since gone, is no pid reuse)
 						e.checkReuse(id, true)
 					}
 				}
